@@ -60,6 +60,7 @@ type ProxyParams struct {
 	BoltGoAway   bool         // C11: the bolt listener announces the stop with a go-away frame (enable_bolt_goaway)
 	LocalErr     bool         // some requests ask for a service that has no route, or whose cluster has no host: MOSN answers itself
 	UpIdleS      int          // cluster idle_timeout in seconds (0 = not configured): MOSN closes idle upstream connections itself
+	GoAwayHeavy  bool         // bolt upstreams announce go-away on a quarter of their exchanges (C09/C03/C10 arms)
 	H2Stream     bool         // HTTP/2: the proxy forwards in stream mode (http2_use_stream: header block and body chunks as they come)
 	H2Trailers   bool         // HTTP/2: a third of the messages with a body end with trailing header fields
 	ClientHB     bool         // xprotocol clients send heartbeat requests of their own between their requests (MOSN answers them itself)
@@ -219,6 +220,9 @@ func DrawProxyParams(ch *sim.Choices, prop string) ProxyParams {
 		p.NConns = 1 + ch.Pick("params", "nconns11", 4)
 		p.BoltGoAway = ch.Bool("params", "boltgoaway")
 		p.TwoListeners = ch.Bool("params", "twolisteners")
+		// one-way requests among the others (they are never waited for, and must not disturb the count of
+		// those that are)
+		p.Oneway = (p.Proto == "bolt" || p.Proto == "boltv2" || p.Proto == ppName) && ch.Chance("params", "oneway11", 1, 3)
 	}
 	if p.Proto == "tars" || p.Proto == "dubbo-thrift" {
 		// MOSN's tars codec cannot build replies of its own (Hijack / Reply "not support"): a request that
@@ -269,6 +273,9 @@ func DrawProxyParams(ch *sim.Choices, prop string) ProxyParams {
 	if p.Proto == "http2" && (prop == "C01" || prop == "C18" || prop == "C07") {
 		p.H2Stream = ch.Chance("params", "h2stream", 1, 3)
 		p.H2Trailers = ch.Chance("params", "h2trailers", 1, 2)
+	}
+	if (prop == "C09" || prop == "C03" || prop == "C10") && p.Faults && !p.Auto && (p.Proto == "bolt" || p.Proto == ppName) {
+		p.GoAwayHeavy = ch.Chance("params", "goawayheavy", 1, 4)
 	}
 	switch prop {
 	case "C01", "C02", "C03", "C09", "C10":
@@ -579,6 +586,10 @@ func (w *Proxy) drawAction(ch *sim.Choices) peers.Action {
 	a := peers.Action{Delay: pickFrom(ch, "work", "delay", cands)}
 	a.Delay2 = pickFrom(ch, "work", "delay2", []time.Duration{0, time.Millisecond, 30 * time.Millisecond})
 	k := ch.Pick("work", "act", 20)
+	if p.GoAwayHeavy && ch.Chance("work", "goawayheavy", 1, 4) {
+		a.Kind = "goaway_reply"
+		return a
+	}
 	if p.UpGarbage && ch.Chance("work", "upgarbage", 1, 4) {
 		if ch.Bool("work", "upgarbagekind") {
 			a.Kind = "garbage_reply"
@@ -1233,6 +1244,14 @@ func (w *Proxy) setupXClient(ci int, proto string, reqIdxP *int) {
 			r.Frame = codec.Build(f)
 			if r.Extra == nil {
 				r.Extra = map[string]string{}
+			}
+			if k == p.ReqsPerConn-1 && !p.ClientLeaves && !p.ClientHB && (w.Prop == "C07" || w.Prop == "C01") && ch.Chance("work", "pauseinframe", 1, 6) {
+				// the last frame of this connection arrives in two parts, 16-40 s apart (MOSN's read timeout is 15 s)
+				r.Extra["pause_at"] = fmt.Sprint(ch.Pick("work", "pauseat", 1<<16))
+				r.Extra["pause_s"] = fmt.Sprint(pickFrom(ch, "work", "pausesecs", []int{16, 31, 40}))
+				if t+45*time.Second > w.lastSend {
+					w.lastSend = t + 45*time.Second
+				}
 			}
 			r.Extra["ptimeout"] = fmt.Sprint(f.Timeout)
 			w.H.Add(r)
